@@ -400,6 +400,50 @@ func runC15(env *lib.Env, rep *lib.Report) {
 			panic(lib.HarnessError{Msg: fmt.Sprintf("state count %d differs from closed form %d for capacity %d keys %d (canonicalisation or op alphabet wrong)", states, want, sc.cap, sc.keys)})
 		}
 	}
+	// wide caches: for capacities up to several hundred, every position of the single clean entry among
+	// dirty ones (and of two clean entries), then an insertion: it must be accepted and must evict exactly the
+	// least recently used clean entry, however far from the cold end that is; with no clean entry it is refused.
+	wide := []int{8, 16, 63, 64, 65, 66, 100, 129, 257}
+	if env.Thorough() {
+		wide = append(wide, 512, 1000)
+	}
+	rep.Bounds["wide capacities"] = fmt.Sprintf("%v: every position of one clean entry (and of a second one) among dirty entries, then an insertion, a lookup of every key and a second insertion, compared with the model step by step", wide)
+	var wideCases int64
+	for wi, capacity := range wide {
+		if wi%env.NShards != env.Shard {
+			continue
+		}
+		for p1 := -1; p1 < capacity; p1++ { // -1: no clean entry at all
+			seconds := []int{-1}
+			if p1 >= 0 {
+				seconds = append(seconds, (p1+1)%capacity, (p1+capacity/2)%capacity, capacity-1, 0)
+			}
+			for _, p2 := range seconds {
+				var path []c15Op
+				for k := 0; k < capacity; k++ {
+					if k == p1 || k == p2 {
+						path = append(path, c15Op{0, k}) // clean
+					} else {
+						path = append(path, c15Op{1, k}) // dirty
+					}
+				}
+				path = append(path, c15Op{0, capacity}, c15Op{3, capacity}, c15Op{3, 0}, c15Op{1, capacity + 1}, c15Op{3, capacity - 1}, c15Op{0, capacity + 2})
+				_, m, prob := c15Replay(capacity, path)
+				wideCases++
+				rep.AddCase(true, lib.HashString(fmt.Sprintf("wide %d %d %d", capacity, p1, p2)), lib.HashString(m.canon()))
+				if prob != "" {
+					tr := make([]string, len(path))
+					for i, o := range path {
+						tr[i] = o.String()
+					}
+					rep.AddFailure(&lib.Failure{Kind: "lru-model-mismatch", Detail: fmt.Sprintf("capacity %d: keys 0..%d stored in that order, all dirty except %d and %d (-1 = none), then setClean(%d) get(%d) get(0) setDirty(%d) get(%d) setClean(%d): %s",
+						capacity, capacity-1, p1, p2, capacity, capacity, capacity+1, capacity-1, capacity+2, prob), Trace: tr, Params: fmt.Sprintf("cap=%d keys=%d", capacity, capacity+3)})
+					break
+				}
+			}
+		}
+	}
+	rep.Transitions += wideCases
 	// setCache surfaces a refusal as ErrLRUCacheFull (shard 0 only)
 	if env.Shard == 0 {
 		f := &fileStore{cache: NewLRU(2)}
